@@ -847,7 +847,11 @@ Definition op_from_dict (w : world) (ti p : nat) (items : list ditem) : res * wo
       match children_of p (forest_of t) with
       | None => (Err EModel, w)
       | Some (_ :: _) => (Err EAssert, w)          (* assert not self._children *)
-      | Some [] => from_dict_items ti p items w
+      | Some [] =>
+          match from_dict_items ti p items w with
+          | (Ok _, w1) => (Ok [], w1)
+          | (Err e, w1) => (Err e, W (trees w) (next w1))     (* the half-built branch is removed again (fix D48) *)
+          end
       end
   end.
 
